@@ -58,8 +58,23 @@ def validate_parts(ctx, module, cfg, parts, what, keyfn, judged, jobs=4, timeout
         return list(ex.map(one, parts))
 
 
-def run_driver(ctx, exe, prop, out, timeout=1800, extra=()):
-    rc, o = ctx.run([exe, prop, "--out", out, "--tier", ctx.tier] + list(extra), timeout=timeout)
+def build(ctx, release=False):
+    """The driver binary. VERIF_SIDEMETA_EXE (VERIF_SIDEMETA_EXE_REL for release) substitutes a
+    pre-built binary: used to demonstrate detection with a mutated scratch copy of mmtk-core
+    without editing /repo, which other checks build against at the same time."""
+    override = os.environ.get("VERIF_SIDEMETA_EXE_REL" if release else "VERIF_SIDEMETA_EXE")
+    if override:
+        vf.log("using pre-built driver %s" % override)
+        ctx.assumptions.append("driver binary substituted by environment: %s" % override)
+        return override
+    return ctx.build("d_sidemeta", release=release)
+
+
+def run_driver(ctx, exe, prop, out, timeout=1800, extra=(), release=False):
+    """Debug driver: sizes of the tier. Release driver (thorough tier only): quick sizes on all
+    spec shapes (the release build has no internal cross-checks; only the TLA+ oracle judges)."""
+    args = ["--tier", "quick", "--allconfigs"] if release else ["--tier", ctx.tier]
+    rc, o = ctx.run([exe, prop, "--out", out] + args + list(extra), timeout=timeout)
     if rc != 0:
         raise vf.ToolError("d_sidemeta %s failed: rc=%s\n%s" % (prop, rc, o[-2000:]))
     return o.strip().splitlines()[-1] if o.strip() else ""
